@@ -43,6 +43,7 @@ class Lockstep:
         self.notes = []
         self.seen = set()
         self._p0 = {}
+        self.loop_memo = {}
         self.stats = {"real_paths": 0, "spec_paths": 0, "loops": 0}
 
     def ob(self, name, hyps, goal, info, families=None):
@@ -172,6 +173,8 @@ class Lockstep:
             if g not in allowed and v is not st0.glob.get(g):
                 self.ob("%s/frame:%s" % (fname, g), ro.st.conds, values_equal(v, st0.glob.get(g)), "global %s written but not in modifies" % g)
         for hk, v in ro.st.heap.items():
+            if "DEEPCOPY" in hk[0] or "!ret" in hk[0] or "NEW_" in hk[0]:
+                continue                      # a field of an object created in this activation
             if hk[1] not in allowed:
                 self.ob("%s/frame:%s" % (fname, hk[1]), ro.st.conds, z3.BoolVal(False), "field %s.%s written but not in modifies" % hk)
 
@@ -188,6 +191,20 @@ class Lockstep:
             lname = "%s/loop@%d" % (fname, rec.node.lineno)
             ls.ob(lname + "/iter", p.conds, xs == rec.iter, "real and spec iterate over the same sequence")
             rename = ls.c.rename
+            ckey = (rec.uid, id(s), ex.state_sig(xs, p, ex.syntactic_writes(s) - {"self"}))
+            hit = ls.loop_memo.get(ckey)
+            if hit is not None:
+                # the same comparison (same real record, same spec state, same relevant conditions) was already discharged syntactically
+                written_s, kmap = hit
+                ex_rec = LoopRecord(rec.uid)
+                ex_rec.node, ex_rec.iter, ex_rec.body = s, xs, rec.body
+                ex_rec.written = written_s
+                ex_rec.cout = {ks: (rec.cout[kmap[ks]] if kmap[ks] in rec.cout else fresh("specout_" + ks.split(":", 1)[1][-20:])) for ks in written_s}
+                ex_rec.exit, ex_rec.retv, ex_rec.msg = rec.exit, rec.retv, rec.msg
+                ex_rec.n_events = rec.n_events
+                ls.stats["loop_memo_hits"] = ls.stats.get("loop_memo_hits", 0) + 1
+                return ex.after_loop(ex_rec, p)
+            n_obs_before = len(ls.obs)
             written_s = ex.dry_written(s, xs, p)
             kmap = {}
             for ks in written_s:
@@ -223,6 +240,7 @@ class Lockstep:
                 q.loops = list(p.loops)          # inner loops of the spec body pair with the inner records of this real body path
                 sub = Exec(ex.ctx, "spec", fname)
                 sub.fn_locals = ex.fn_locals
+                sub.try_depth = ex.try_depth
                 inner_real = ro.st.loops
                 sub.loop_hook = ls.make_hook(inner_real, fname)
                 sub.ret_sink = []
@@ -275,6 +293,8 @@ class Lockstep:
             ex_rec.cout = {ks: (rec.cout[kmap[ks]] if kmap[ks] in rec.cout else fresh("specout_" + ks.split(":", 1)[1][-20:])) for ks in written_s}
             ex_rec.exit, ex_rec.retv, ex_rec.msg = rec.exit, rec.retv, rec.msg
             ex_rec.n_events = rec.n_events
+            if all(o.goal is not None and z3.is_true(o.goal) for o in ls.obs[n_obs_before:]):
+                ls.loop_memo[ckey] = (written_s, dict(kmap))
             return ex.after_loop(ex_rec, p)
         return hook
 
